@@ -128,6 +128,9 @@ var failFwd = []string{"noendpoint", "noupstream", "noupstream-remote", "dialerr
 
 var failAgent = []string{"closebefore", "closemid-cl", "closemid-chunked", "slow", "slow-upgrade", "slow-upgrade-case", "fast"}
 
+// the HTTP/2 upstream is a net/http server (no raw framing): the kinds it can play
+var failAgentH2 = []string{"closebefore", "slow", "fast", "slow", "closemid-chunked"}
+
 // Gen: 80% transparency cases (no proxy timeout in the way: 30 s), 20% failure-matrix cases on
 // a stack whose proxy timeout is 300 ms (slow upstreams answer after 600/900 ms, never within
 // 150 ms of the timeout).
@@ -138,10 +141,16 @@ func (e *httpEngine) Gen(r *rand.Rand, n int, tier string, w *bufio.Writer) {
 			fmt.Fprintln(w, "setup 300")
 			k := 3 + r.Intn(4)
 			for i := 0; i < k; i++ {
-				if r.Intn(2) == 0 {
+				switch r.Intn(6) {
+				case 0, 1:
 					fmt.Fprintf(w, "fail local %s\n", Pick(r, failLocal))
-				} else {
+				case 2, 3:
 					fmt.Fprintf(w, "fail fwd %s\n", Pick(r, failFwd))
+				case 4:
+					// the agent's reverse proxy in front of a plain, a TLS (HTTP/1.1) and a TLS + HTTP/2 upstream
+					fmt.Fprintf(w, "fail %s %s\n", Pick(r, []string{"agent", "agent-tls"}), Pick(r, failAgent))
+				default:
+					fmt.Fprintf(w, "fail agent-h2 %s\n", Pick(r, failAgentH2))
 				}
 			}
 			continue
